@@ -157,6 +157,38 @@ theorem choice_interval_length (a : List ℝ) (Lambda : ℝ) (j : Nat) (hj : j <
     cum a (j + 1) / Lambda - cum a j / Lambda = a[j] / Lambda := by
   rw [cum_succ a j hj]; ring
 
+/-- **the choice probabilities add up to one**: the interval lengths `a_j/Λ` of `choice_measure` sum to 1, i.e. the
+intervals `(c_j/Λ, c_{j+1}/Λ]` tile `(0, 1]` with nothing left over for "no reaction". -/
+theorem choice_lengths_sum (a : List ℝ) (Lambda : ℝ) (hsum : a.sum = Lambda) (hL : Lambda ≠ 0) :
+    (a.map (fun v => v / Lambda)).sum = 1 := by
+  have h : ∀ l : List ℝ, (l.map (fun v => v / Lambda)).sum = l.sum / Lambda := by
+    intro l
+    induction l with
+    | nil => simp
+    | cons x l ih => simp only [List.map_cons, List.sum_cons, ih]; ring
+  rw [h, hsum, div_self hL]
+
+/-- **every uniform selects a reaction of the model**: for `u ∈ (0, 1]` the index returned is a valid reaction index
+(never the "none" sentinel −1, never past the end), so a step with `Λ > 0` always fires something. -/
+theorem choice_total (a : List ℝ) (Lambda u : ℝ) (hpos : ∀ v ∈ a, 0 ≤ v) (hsum : a.sum = Lambda)
+    (hL : 0 < Lambda) (hu0 : 0 < u) (hu1 : u ≤ 1) :
+    ∃ j, j < a.length ∧ sampleDiscreteFrom a (u * Lambda) = (j : Int) ∧ 0 < a[j]! := by
+  have hq0 : 0 < u * Lambda := mul_pos hu0 hL
+  have hq1 : u * Lambda ≤ a.sum := by rw [hsum]; nlinarith
+  obtain ⟨k, hk, hsel, h1, h2⟩ := sampleDiscrete_interval a (u * Lambda) hpos hq0 hq1
+  refine ⟨k, hk, hsel, ?_⟩
+  rw [cum_succ a k hk] at h2
+  have : a[k]! = a[k] := by simp [hk]
+  rw [this]
+  linarith
+
+/-- the two end points of the tiling: the first interval starts at 0 and the last ends at 1. -/
+theorem choice_endpoints (a : List ℝ) (Lambda : ℝ) (hsum : a.sum = Lambda) (hL : Lambda ≠ 0) :
+    cum a 0 / Lambda = 0 ∧ cum a a.length / Lambda = 1 := by
+  constructor
+  · simp [cum]
+  · unfold cum; rw [List.take_length, hsum, div_self hL]
+
 /-- **one-step rectangle**: the pairs `(u, u')` for which the next event is reaction `j` at a time in
 `(t + lo, t + hi]` form the rectangle `[exp(−Λ hi), exp(−Λ lo)) × (c_j/Λ, c_{j+1}/Λ]`, whose area
 `(e^{−Λ lo} − e^{−Λ hi}) · a_j/Λ` is the SSA one-step probability. -/
